@@ -93,6 +93,19 @@ Theorem C23_no_leak_sharded : forall c ss,
 Proof. exact (sharded_no_leak true). Qed.
 Print Assumptions C23_no_leak_sharded.
 
+(** The sharded List (per-shard listings under the caller's context merged by name / id, statistics added):
+    every listed name and ReposMap key belongs to a live repository of the caller in some shard, and the
+    document statistic is bounded by the documents of the caller's repositories. *)
+Theorem C23_no_leak_sharded_list : forall c field ls,
+  let res := sharded_rlist true c field ls in
+  (forall n, In n (sl_names res) ->
+     exists s q r ds, In (s, q) ls /\ In (r, ds) s /\ has_access true c (r_tenant r) = true /\ r_tomb r = false /\ n = r_name r) /\
+  (forall i, In i (sl_ids res) ->
+     exists s q r ds, In (s, q) ls /\ In (r, ds) s /\ has_access true c (r_tenant r) = true /\ r_tomb r = false /\ i = r_id r) /\
+  (sl_docs res <= own_docs true c ls)%N.
+Proof. exact (sharded_rlist_no_leak true). Qed.
+Print Assumptions C23_no_leak_sharded_list.
+
 (** The code before the repair (final addRepo loop without access check; /repo commit 2fc86b1 fixes it):
     the statement about RepoURLs is false — tenant 1 receives (name 2 -> template 12) of tenant 2's repository. *)
 Theorem C23_no_leak_refuted_before_fix :
@@ -118,6 +131,13 @@ Example C23_nonvacuous_list :
   lr_repos (rlist true CtxSystem leak_shard (Some true) true (fun _ _ => true) FRepos) = [1; 2]%N /\
   own true (CtxTenant 1) leak_shard <> leak_shard.
 Proof. vm_compute. repeat split. intro H. discriminate H. Qed.
+
+Example C23_nonvacuous_sharded_list :
+  let ls := [(leak_shard, (@None bool, true, fun (_ : repo) (_ : doc) => true)); (leak_shard, (Some true, true, fun _ _ => true))] in
+  sl_names (sharded_rlist true (CtxTenant 2) FRepos ls) = [2%N] /\
+  sl_ids (sharded_rlist true (CtxTenant 1) FReposMap ls) = [101%N] /\
+  sl_docs (sharded_rlist true (CtxTenant 1) FRepos ls) = 2%N /\ sl_docs (sharded_rlist true CtxSystem FRepos ls) = 4%N.
+Proof. vm_compute. repeat split. Qed.
 
 Example C23_nonvacuous_sharded :
   sr_urls (sharded_search true (CtxTenant 2)
